@@ -21,7 +21,7 @@ vars == <<hist, dstate, flavour, retained, cache>>
 
 InitWith(fl) == hist = <<>> /\ dstate = 0 /\ flavour = fl /\ retained = 0 /\ cache = 0
 \* serving request c: tables untouched, nothing retained, the heap does not grow
-ViewLeak == "ViewSignatureCache" \in Deviations /\ flavour \in {"view", "view_ctx"}
+ViewLeak == "ViewSignatureCache" \in Deviations /\ flavour \in {"view", "view_ctx", "view_typed", "view_schema"}
 Serve(c) == /\ hist' = Append(hist, c)
             /\ dstate' = dstate
             /\ \/ ~ViewLeak /\ retained' = 0 /\ cache' = cache
